@@ -4,6 +4,9 @@ import engine
 from c02 import shipped_scenarios
 
 
+REPLAY = ("TraceSearch", engine.TRACE_CFG % '"C01"')
+
+
 def signature(ev):
     sc = ev["sc"]
     path = ev["path"].replace("cached-", "")
